@@ -56,4 +56,17 @@ Section Quat.
 
   (** the orientation written for one grain when two sections are combined with the fraction [a] *)
   Definition average_rotation (m1 m2 : list F) (a : F) : list F := mat3_cast (slerp (quat_cast m1) (quat_cast m2) a).
+  (** Utilities::euler_angles_to_rotation_matrix (utilities.cc:1150-1172): z-x-z Euler angles in degrees, row-major *)
+  Definition euler_matrix (phi1_d theta_d phi2_d : F) : list F :=
+    let dtr := fpi / fofZ 180 in
+    let phi1 := phi1_d * dtr in let theta := theta_d * dtr in let phi2 := phi2_d * dtr in
+    [ (fcos phi2 * fcos phi1) - ((fcos theta * fsin phi1) * fsin phi2);
+      ((- fcos phi2) * fsin phi1) - ((fcos theta * fcos phi1) * fsin phi2);
+      (- fsin phi2) * fsin theta;
+      (fsin phi2 * fcos phi1) + ((fcos theta * fsin phi1) * fcos phi2);
+      ((- fsin phi2) * fsin phi1) + ((fcos theta * fcos phi1) * fcos phi2);
+      fcos phi2 * fsin theta;
+      (- fsin theta) * fsin phi1;
+      (- fsin theta) * fcos phi1;
+      fcos theta ].
 End Quat.
